@@ -221,6 +221,11 @@ impl Sandbox {
         l.iter().filter(|(k, e)| self.rel_in_root(k) && matches!(e, Ent::File { .. }) && !k.ends_with(".tmp")).count()
     }
 
+    /// number of regular files below root, whatever their names
+    pub fn all_files_in_root(&self, l: &Listing) -> usize {
+        l.iter().filter(|(k, e)| self.rel_in_root(k) && matches!(e, Ent::File { .. })).count()
+    }
+
     /// true if something appeared beside `parent` inside the guard directories —
     /// a harness safety failure (the resolver let something through).
     pub fn breach(&self) -> Option<String> {
